@@ -269,8 +269,16 @@ def r01_6(ctx, rr):
         reads = []
 
         def on_node(W, n, K, reads=reads):
-            if n.get("k") == "Index" and W.T.term(n["e"]) == bits and W.debug_depth == 0:
+            x = None
+            if n.get("k") == "Index" and W.T.term(n["e"]) == bits and W.debug_depth == 0 and W.closure_depth == 0:
                 x = W.T.term(n["i"])
+            elif n.get("k") == "Call" and n["f"].get("k") == "Path" and n["f"].get("id") in W.T.closures and W.debug_depth == 0:
+                # a local closure reading the backend at its parameter: the read happens at the call
+                c = W.T.closures[n["f"]["id"]]
+                ps = c.get("params", [])
+                if len(ps) == 1 and ps[0].get("k") == "PBind" and any(y.get("k") == "Index" and y["i"].get("k") == "Path" and y["i"].get("id") == ps[0]["id"] and W.T.term(y["e"]) == bits for y in walk(c["body"])):
+                    x = W.T.term(n["args"][0])
+            if x is not None:
                 nw = set()
                 for a in K.atoms:
                     for t in a[1:3]:
